@@ -345,10 +345,12 @@ pub fn normalise(mut c: Case) -> Case {
         // public provider); a client cannot recover from an expired one (RFC 9000 8.1.3 lets the server discard
         // such Initials). The exchange Initial -> Retry -> Initial+token is therefore kept free of faults, so
         // that a failed handshake is never just an expired token.
-        for f in c.net.tape_up.iter_mut().take(2) {
+        // (the client may have sent a second token-less Initial on a probe timeout before the Retry arrives, and
+        // each of them is answered with a Retry)
+        for f in c.net.tape_up.iter_mut().take(6) {
             *f = Fault::Pass;
         }
-        for f in c.net.tape_down.iter_mut().take(1) {
+        for f in c.net.tape_down.iter_mut().take(4) {
             *f = Fault::Pass;
         }
     }
